@@ -51,6 +51,11 @@
     `fp : Cell → Cell → Except PyErr Bool`, does not raise on pairs of values of the two columns (`hfp`; implied by
     `StrColumn`s for `filterPairPy` / `overlapFilterPairPy`).  Otherwise TypeError: `C15_body`.
 
+  KEYS.  "Key with duplicates" is judged as `validate_key_attr` does, `len(table[key].unique()) == len(table)`: values
+  are identified under Python equality (`1`, `1.0`, `True` are one value; `'1'` is another).  `KeyValid` in the
+  acceptance theorems means exactly that (`KeyColumn`, SSJ/Props/Common.lean); the companion file
+  `SSJ/Props/C15_keys.lean` proves that a key column such as `[1, 1.0]` is rejected by every entry point.
+
   NOT COVERED.  `profile_table_for_join` argument validation (the profiler model starts at the column level; C17);
   the converters (C16: `frame_modes`/`series_error_iff`).  That the DataFrame objects passed in are not mutated is
   outside what a value-level model can exhibit (see C12).  The tie to the real exception classes is the `validation`
@@ -154,7 +159,9 @@ theorem join_rejects_unknown_output_attribute (mname : String) (a : JoinArgs) (t
     validateJoin mname a t = .error .assertion :=
   validateJoin_output_attr mname a t l r hv ht hthr hop h
 
-/-- A key attribute with a repeated value or a missing value ⇒ AssertionError. -/
+/-- A key attribute with a repeated value or a missing value ⇒ AssertionError.  ("Repeated" is judged by pandas'
+    `unique()`, i.e. under Python equality: also `1` and `1.0`, or `1` and `True`, are one value twice — companion file
+    `C15_keys.lean`, `join_rejects_numerically_equal_keys`; this theorem is the special case of two identical cells.) -/
 theorem join_rejects_bad_key (mname : String) (a : JoinArgs) (t : TokObj) (l r : Frame)
     (hv : TablesValid a.toTableArgs l r) (ht : TokValid mname t)
     (hthr : Gen.validate_threshold a.threshold (.str mname) ≠ .err .assertion)
@@ -164,7 +171,7 @@ theorem join_rejects_bad_key (mname : String) (a : JoinArgs) (t : TokObj) (l r :
          (¬ (r.col a.rKey).Nodup ∨ ∃ c ∈ r.col a.rKey, c.isMissing = true)) :
     validateJoin mname a t = .error .assertion :=
   validateJoin_key mname a t l r hv ht hthr hop hout
-    (h.imp (not_keyValid_iff _ _).2 (not_keyValid_iff _ _).2)
+    (h.imp (not_keyValid_of_dup_or_missing _ _) (not_keyValid_of_dup_or_missing _ _))
 
 /-- The validation block of a join never raises anything but TypeError or AssertionError. -/
 theorem join_error_kind (mname : String) (a : JoinArgs) (t : TokObj) (e : PyErr)
@@ -366,11 +373,13 @@ theorem filter_tables_rejects_unknown_output_attribute (a : TableArgs) (l r : Fr
     validateFilterTables a = .error .assertion :=
   validateFilterTables_output_attr a l r hv h
 
+/-- key with a repeated or a missing value ⇒ AssertionError (Python-equal values such as `1` / `1.0`:
+    `C15_keys.filter_tables_rejects_numerically_equal_keys`) -/
 theorem filter_tables_rejects_bad_key (a : TableArgs) (l r : Frame) (hv : TablesValid a l r) (hout : OutValid a l r)
     (h : (¬ (l.col a.lKey).Nodup ∨ ∃ c ∈ l.col a.lKey, c.isMissing = true) ∨
          (¬ (r.col a.rKey).Nodup ∨ ∃ c ∈ r.col a.rKey, c.isMissing = true)) :
     validateFilterTables a = .error .assertion :=
-  validateFilterTables_key a l r hv hout (h.imp (not_keyValid_iff _ _).2 (not_keyValid_iff _ _).2)
+  validateFilterTables_key a l r hv hout (h.imp (not_keyValid_of_dup_or_missing _ _) (not_keyValid_of_dup_or_missing _ _))
 
 theorem filter_tables_error_kind (a : TableArgs) (e : PyErr) (h : validateFilterTables a = .error e) :
     e = .typeErr ∨ e = .assertion :=
@@ -472,7 +481,9 @@ theorem filter_candset_checks (a : CandsetArgs) (c l r : Frame)
 /-- A join accepts EXACTLY the requests whose tables are DataFrames containing the key / join attributes with the
     join columns of string dtype (`TablesValid`), whose tokenizer is a Tokenizer (q-gram for edit distance), whose
     threshold and operator pass the generated validators, whose output attributes exist and whose key columns are
-    duplicate-free without missing values. -/
+    key columns (`KeyValid` = `KeyColumn` of SSJ/Props/Common.lean, `C15_keys.keyValid_iff_keyColumn`): no missing value
+    and no two rows with values that are equal as Python values (`1`, `1.0`, `True` count as ONE value, as for pandas'
+    `unique()`; strictly stronger than pairwise different cells). -/
 theorem join_accepts_iff (mname : String) (a : JoinArgs) (t : TokObj) (l r : Frame) :
     validateJoin mname a t = .ok (l, r) ↔
       TablesValid a.toTableArgs l r ∧ TokValid mname t ∧
